@@ -7,6 +7,8 @@ import JominiModel.Proofs.TextReaderFast
 import JominiModel.Proofs.TextFault
 import JominiModel.Proofs.TextReaderFaithful
 import JominiModel.Proofs.TextReaderUnfit
+import JominiModel.Proofs.TextReaderFull
+import JominiModel.Proofs.TextReaderBuf
 import JominiModel.Generated.Tables
 /-
 C07 — the streaming text reader is independent of read chunking and buffer size.
@@ -421,11 +423,8 @@ scalar longer than `cap`, or a quoted scalar whose content plus closing quote is
 fault-free read schedule ends in `BufferFull`, after a prefix of the from-slice tokens (never a clean end, never a split
 or altered token).
 
-Full statement (`C07_unfit_is_full`, not proved): the same under `cap < need data`, which in addition counts the look-ahead
-byte after an unquoted scalar / operator, comments, `@[…` prefixes and the BOM arm; on the real code the op `tneed` checks
-it for `cap = need − 1` (oracle `need-not-tight`, 0 violations).  Missing for the proof: that the carries of the scans of
-successive window prefixes inside one item never decrease (the item's start is fixed), so that a prefix the schedule did
-not stop at is bounded by the next one it did stop at. -/
+Full statement: `C07_unfit_is_full` below (proved): the same under `cap < need data`, which in addition counts the look-ahead
+byte after an unquoted scalar / operator, comments, `@[…` prefixes and the BOM arm. -/
 theorem C07_unfit_is_full_partial (data : Bytes) (cap : Nat) (sched : List Step) (hcap : 0 < cap) (hw : WfSched sched)
     (hnf : NoFaults sched) (t : Token) (ht : t ∈ (sliceTokens data).toks) (hbig : cap < tokSize t) :
     (streamTokens cap sched data).out = .err .full ∧
@@ -441,15 +440,90 @@ theorem C07_unfit_is_full_partial (data : Bytes) (cap : Nat) (sched : List Step)
 example : Token.unquoted [97, 98, 99, 100, 101, 102] ∈ (sliceTokens [97, 98, 99, 100, 101, 102, 32]).toks := by
   decide +kernel
 
-/-
-Not proved; statement kept as the obligation (exercised on the real code by the op `tneed`, oracle `need-not-tight`, and
-by the oracle `overflow-not-error`):
+/-- **`C07_unfit_is_full`**, the converse of `C07_full_only_if_unfit`: with a buffer smaller than `need data` — some token
+with its look-ahead byte, comment, `@[…` prefix, operator look-ahead or the BOM arm's three bytes does not fit — EVERY
+fault-free read schedule ends in `BufferFull` (never a clean end, never `Eof`, never a silently different token), after a
+prefix of the from-slice tokens.  (`Proofs/TextReaderFull.lean`: a window that asks for a refill larger than the buffer is
+reached whatever the read sizes are, because a read never delivers more than what fits behind the carried bytes.) -/
+theorem C07_unfit_is_full (data : Bytes) (cap : Nat) (sched : List Step) (hcap : 0 < cap) (h : cap < need data)
+    (hw : WfSched sched) (hnf : NoFaults sched) :
+    (streamTokens cap sched data).out = .err .full ∧
+    (streamTokens cap sched data).toks <+: (sliceTokens data).toks := by
+  obtain ⟨h1, _⟩ := C07_start_related cap sched data hcap hw
+  have hfull : (streamTokens cap sched data).out = .err .full := by
+    refine lexAll_full (fuelFor data) _ 0 .unknown data _ [] (Or.inl h1) (by simpa [fromReader] using hnf)
+      (by simp [InBuffer, fromReader]) (by simp [fromReader]; omega) ?_ (by simp [fuelFor]; omega)
+    unfold need at h
+    simp only [fromReader]
+    omega
+  rcases C07_stream_eq_slice data cap sched hcap hw hnf with ⟨_, b, _⟩ | ⟨_, b, _⟩
+  · exact ⟨hfull, b⟩
+  · -- the slice reader never reports `BufferFull`
+    exfalso
+    have hs := C07_full_only_if_unfit data (need data) [] (by intro x hx; simp at hx) (Nat.le_refl _)
+    have hn : 0 < need data := by unfold need; omega
+    rcases C07_stream_eq_slice data (need data) [] hn (by intro x hx; simp at hx) (by intro x hx; simp at hx) with ⟨a, _, _⟩ | ⟨_, b', _⟩
+    · exact hs a
+    · rw [hfull] at b; rw [← b] at b'; exact hs b'
 
-theorem C07_unfit_is_full (data cap sched) (hcap : 0 < cap) (h : cap < need data) (hw : WfSched sched) (hnf : NoFaults sched) :
-    (streamTokens cap sched data).out = .err .full
-  -- the converse of C07_full_only_if_unfit, for EVERY fault-free schedule: with too small a buffer the run always ends in
-  -- BufferFull.  Proved above for unfit TOKENS (`C07_unfit_is_full_partial`); open for the look-ahead byte, comments,
-  -- `@[…` prefixes and the BOM arm.
--/
+-- the hypothesis is satisfiable: `abc=` needs 4 bytes (`abc` and its look-ahead), every token is at most 3 bytes long
+example : need [97, 98, 99, 61, 49, 32] = 4 := by decide +kernel
+example : (streamTokens 3 [.repeat_ 1] [97, 98, 99, 61, 49, 32]).out = .err .full := by decide +kernel
+
+/-- **`C07_buffer_full_iff`: the last clause of C07 as an equivalence.**  For every input, every fault-free read schedule
+(read sizes ≥ 1) and every buffer capacity ≥ 1: the streamed run ends in `BufferFull` IF AND ONLY IF something the reader
+must hold in one window does not fit the buffer, `cap < need data` (`need`: a decidable function of the input — longest
+unquoted scalar + 1, quoted content + 1, comment + 1, `@[…]`, 2 for an operator, up to 3 for a leading `0xEF`).  When it
+does, the tokens returned before the error are a prefix of the from-slice tokens; when it does not, the streamed tokens and
+the terminal outcome are those of the from-slice reader.  So the outcome class (overflow or not) depends on the input and
+the capacity only, never on the read schedule. -/
+theorem C07_buffer_full_iff (data : Bytes) (cap : Nat) (sched : List Step) (hcap : 0 < cap) (hw : WfSched sched)
+    (hnf : NoFaults sched) :
+    ((streamTokens cap sched data).out = .err .full ↔ cap < need data) ∧
+    (cap < need data → (streamTokens cap sched data).toks <+: (sliceTokens data).toks) ∧
+    (need data ≤ cap → (streamTokens cap sched data).toks = (sliceTokens data).toks ∧
+      (streamTokens cap sched data).out = (sliceTokens data).out) := by
+  refine ⟨⟨fun h => ?_, fun h => (C07_unfit_is_full data cap sched hcap h hw hnf).1⟩,
+    fun h => (C07_unfit_is_full data cap sched hcap h hw hnf).2,
+    fun h => ⟨(C07_stream_eq_slice_fits data cap sched hw hnf h).1, (C07_stream_eq_slice_fits data cap sched hw hnf h).2.1⟩⟩
+  apply Nat.lt_of_not_le
+  intro hfit
+  exact C07_full_only_if_unfit data cap sched hw hfit h
+
+-- both sides occur: `abc=1 ` with 3 bytes overflows, with 4 bytes it does not
+example : ((streamTokens 4 [.repeat_ 1] [97, 98, 99, 61, 49, 32]).out = .end_) := by decide +kernel
+
+/-! ### recycled buffers -/
+
+/-- **`C07_recycled_buffer`: the token stream does not depend on what a caller-provided buffer holds.**
+`streamTokensBuf buf sched data` is the streaming reader built with `TokenReaderBuilder::buffer(buf)` over the CONCRETE
+`BufferWindow` (`Model/TextReaderBuf.lean`: the allocation `buf` with arbitrary stale contents, `start`/`end` offsets,
+`fill_buf` with its `copy_within` — which moves stale bytes too — and the write of the delivered bytes; the fast path's
+8-byte loads and pointer loops read the allocation, bounded only by the pointer comparisons the code makes).  For every
+buffer contents, every schedule (faults included) and every input, its tokens, its outcome and its final state (seen
+through `window()`, position, source) are exactly those of the abstract reader with a buffer of the same length — in
+particular the same for any two buffers of equal length, e.g. a recycled one and a zeroed one.  (A load beyond the
+allocation would be the outcome `ub`; the abstract run never ends in `ub`, `C05_textreader_no_ub`, hence neither does this
+one.) -/
+theorem C07_recycled_buffer (buf : Bytes) (sched : List Step) (data : Bytes) :
+    (streamTokensBuf buf sched data).toks = (streamTokens buf.length sched data).toks ∧
+    (streamTokensBuf buf sched data).out = (streamTokens buf.length sched data).out ∧
+    (streamTokensBuf buf sched data).final.view = (streamTokens buf.length sched data).final ∧
+    (∀ buf' : Bytes, buf'.length = buf.length →
+      (streamTokensBuf buf' sched data).toks = (streamTokensBuf buf sched data).toks ∧
+      (streamTokensBuf buf' sched data).out = (streamTokensBuf buf sched data).out) := by
+  have h := streamTokensBuf_view buf sched data
+  refine ⟨congrArg Run.toks h, congrArg Run.out h, congrArg Run.final h, fun buf' hl => ?_⟩
+  have h' := streamTokensBuf_view buf' sched data
+  rw [hl] at h'
+  exact ⟨(congrArg Run.toks h').trans (congrArg Run.toks h).symm, (congrArg Run.out h').trans (congrArg Run.out h).symm⟩
+
+/-- one `next_opt` call on any well-formed concrete reader (`start ≤ end ≤ len`), whatever lies behind its window -/
+theorem C07_recycled_buffer_call (fuel : Nat) (c : BReader) (h : c.WF) :
+    (bnextOpt fuel c).view = nextOpt fuel c.view ∧ (bnextOpt fuel c).WF := bnextOpt_view fuel c h
+
+-- a buffer full of `"`: the bytes behind the window are never taken for the closing quote
+example : (streamTokensBuf (List.replicate 16 34) [.give 3, .repeat_ 2] [97, 61, 34, 98, 99, 34, 32, 120, 10]).toks =
+    [.unquoted [97], .op .eq, .quoted [98, 99], .unquoted [120]] := by decide +kernel
 
 end Jomini.Props.C07
